@@ -11,7 +11,7 @@
 pub fn quit_job_task(job: Job, signal: Signal, grace: Duration, env: &mut JEnv)
     ensures
         // the graceful stop is sent first, then the delete, and the task ends only when the job has gone
-        final(env).log@ =~= old(env).log@ + seq![JAct::StopWithSignal(job, signal, grace), JAct::Delete(job), JAct::AwaitDelete(job)], // OBL:C08.quit_job_task.stops_gracefully_then_deletes_and_waits
+        final(env).log@ =~= old(env).log@ + seq![JAct::StopWithSignal(job, signal, grace), JAct::Delete(job), JAct::AwaitDelete(job)], // OBL:C08+C06.quit_job_task.stops_gracefully_then_deletes_and_waits
 //@ item worker
 //@ header
 #[verifier::exec_allows_no_decreases_clause]
